@@ -1,11 +1,3 @@
 SPECIFICATION TSpec
-CONSTANTS
-  Profiles = {"P1"}
-  DomBytes = {}
-  DomLC = {}
-  DomCert = {}
-  DomSw = {}
-  DomInvalid = {}
-  MaxComps = 0
 INVARIANT Verdict
 CHECK_DEADLOCK FALSE
